@@ -898,11 +898,58 @@ func c12NewExecutor(force0 bool) (*ResourceUpdateExecutorImpl, chan struct{}) {
 
 // ---------------------------------------------------------------------------------------------
 
-func c12BuildTree(r *kit.Rand, w *c12World, rootDir string) {
+// c12BuildTree builds the tree with the directory names the kubelet uses (systemd driver:
+// kubepods.slice / kubepods-burstable.slice / kubepods-burstable-pod<uid>.slice /
+// cri-containerd-<id>.scope; cgroupfs driver: kubepods / burstable / pod<uid> / <id>): how a cgroup's
+// path compares with its parent's resource file path ("…/kubepods-burstable.slice/memory.min" sorts
+// before "…/memory.min", "…/kubepods-pod1.slice/cpu.cfs_quota_us" after "…/cpu.cfs_quota_us") is
+// part of the input.
+func c12BuildTree(r *kit.Rand, w *c12World, base string) {
 	w.maxDepth = r.Range(1, 3)
+	cgroupfs := r.Pct(30)
+	w.qosShape = w.maxDepth >= 2 && r.Pct(30)
+	nq := r.Range(1, 2)
+	qosFirst := r.Intn(2) // which QoS dir comes first when only one is present
+	const (
+		kRoot = iota
+		kQoS
+		kPod
+		kContainer
+		kNested
+	)
+	kinds := []int{kRoot}
+	qosOf := []string{""} // QoS infix of the subtree ("burstable" / "besteffort" / "" for guaranteed)
+	name := func(kind int, qos string, i int) string {
+		id := fmt.Sprintf("%08x", r.Uint64()&0xffffffff)
+		switch kind {
+		case kQoS:
+			if cgroupfs {
+				return qos
+			}
+			return "kubepods-" + qos + ".slice"
+		case kPod:
+			if cgroupfs {
+				return "pod" + id
+			}
+			if qos == "" {
+				return "kubepods-pod" + id + ".slice"
+			}
+			return "kubepods-" + qos + "-pod" + id + ".slice"
+		case kContainer:
+			if cgroupfs {
+				return id + id
+			}
+			return "cri-containerd-" + id + id + ".scope"
+		}
+		return fmt.Sprintf("nested%d", i)
+	}
+	rootName := "kubepods.slice"
+	if cgroupfs {
+		rootName = "kubepods"
+	}
 	w.parent = []int{-1}
 	w.depth = []int{0}
-	w.dirs = []string{rootDir}
+	w.dirs = []string{filepath.Join(base, rootName)}
 	w.kids = [][]int{nil}
 	frontier := []int{0}
 	wide := -1
@@ -926,7 +973,25 @@ func c12BuildTree(r *kit.Rand, w *c12World, rootDir string) {
 				id := len(w.dirs)
 				w.parent = append(w.parent, p)
 				w.depth = append(w.depth, d)
-				w.dirs = append(w.dirs, filepath.Join(w.dirs[p], fmt.Sprintf("%c%d", "rpcx"[d], k)))
+				kind, qos := kinds[p]+1, qosOf[p]
+				if kinds[p] == kRoot {
+					// the first one or two children of kubepods are QoS dirs (always in the reconciler's
+					// shape, else only when there is room for pods below them), the others guaranteed pods
+					if k < 2 && (w.qosShape && k < nq || !w.qosShape && w.maxDepth >= 2 && r.Pct(60)) {
+						kind, qos = kQoS, []string{"burstable", "besteffort"}[(k+qosFirst)%2]
+						if w.qosShape && nq == 2 {
+							qos = []string{"burstable", "besteffort"}[k] // cgreconcile: Burstable, then BestEffort
+						}
+					} else {
+						kind = kPod
+					}
+				}
+				if kind > kNested {
+					kind = kNested
+				}
+				kinds = append(kinds, kind)
+				qosOf = append(qosOf, qos)
+				w.dirs = append(w.dirs, filepath.Join(w.dirs[p], name(kind, qos, k)))
 				w.kids = append(w.kids, nil)
 				w.kids[p] = append(w.kids[p], id)
 				next = append(next, id)
@@ -936,9 +1001,7 @@ func c12BuildTree(r *kit.Rand, w *c12World, rootDir string) {
 	}
 	// batch levels
 	w.level = append([]int(nil), w.depth...)
-	w.qosShape = w.maxDepth >= 2 && r.Pct(30)
 	if w.qosShape {
-		nq := r.Range(1, 2)
 		for i, k := range w.kids[0] {
 			if i < nq {
 				w.level[k] = 0 // burstable / besteffort: same level as their parent kubepods
@@ -1240,7 +1303,7 @@ func TestVerifC12Executor(t *testing.T) {
 			}
 			w.force0 = r.Pct(12)
 			emptyV2 := w.v2 && r.Pct(30) // some v2 cgroups have an empty cpuset.cpus (they inherit)
-			c12BuildTree(r, w, filepath.Join(base, "kubepods"))
+			c12BuildTree(r, w, base)
 			// resources of this case
 			switch r.Weighted(40, 30, 30) {
 			case 0:
